@@ -12,7 +12,7 @@ import enginegen as G
 import enginerun as R
 
 PID = 'C06'
-RAISE = [0, 2, 3, 4, 5, 6, 7, 8]     # indexes into enginelib.EXN: KeyError IndexError ValueError TypeError AttributeError RuntimeError AssertionError StopIteration
+RAISE = [0, 2, 3, 4, 5, 6, 7, 8, 10, 11, 12, 13]     # indexes into enginelib.EXN: KeyError IndexError ValueError TypeError AttributeError RuntimeError AssertionError StopIteration
 STRS = ['a', 'b', 'ab', 'x', ',', '1', 'if']
 
 
@@ -140,6 +140,15 @@ def shard(col, shard_i, ngrammars, ninputs):
         for t in texts:
             cases.append(R.Case(g, t, None, E.Settings(), spec))
             cases.append(R.Case(g, t, None, E.Settings(memoization=False), spec))
+    # left-recursive rules whose action accepts the early growth rounds and rejects (or raises in) a later one: the shorter
+    # match must be kept and handed to the caller
+    for gi in range(max(2, ngrammars // 2)):
+        g, kind = G.lrec_grammar(rng)
+        col.count('family.lrec.' + kind)
+        names = [n for n, _, _ in g['rules'] if n not in ('start', 'term', 'factor')]
+        for t in G.lrec_inputs(rng, max(4, ninputs // 2), g=g):
+            meth = {n: rng.choice([('failsize', rng.choice([3, 5, 7])), ('failsize', 5), 'identity', 'tag']) for n in names if rng.random() < 0.8}
+            cases.append(R.Case(g, t, None, E.Settings(), ('none', meth), tag='lrec'))
     for gi in range(ngrammars):
         g = simple_rule_grammar(rng)
         texts = [t[:40] for t in G.gen_inputs(rng, g, ninputs)]
